@@ -25,6 +25,7 @@ from irispie.series import arip as ARIP
 from .common import Ctx, err_kind
 
 DRIVERS = ["C12"]
+EXTRA_PROPS = ['BridgeC12']   # refinement bridge from the executable QMat model to the matrix-level theorems (audited with this check)
 LEVEL = "proof"
 MANIFEST = {
     "category": "proof",
